@@ -337,6 +337,12 @@ def apply_event(tt_mod, objs, ev):
         return []
     if op == 'IslOrthoTrunc':
         caps = [np.inf if c >= 99 else c for c in ev['caps']]        # INFCAP in the spec
+        if not ev['asInt']:
+            # the caller's list is used for another train first (a rank-1 copy): the caps requested for A are what
+            # the caller wrote, whatever an earlier call did with the list
+            warm = A.copy()
+            warm.ortho(max_rank=1)
+            warm.ortho(max_rank=caps)
         res = A.ortho(max_rank=caps[1]) if ev['asInt'] else A.ortho(max_rank=caps)
         if res is not A:
             raise Mismatch('identity', 'ortho(max_rank) did not return self')
